@@ -1,7 +1,7 @@
 (* C06 -- hand-written model of the argument-shape dispatch of SMPose.__mul__ for (pose) * (list | tuple | ndarray)
    (spatialmath/super_pose.py:956-994), over abstract argument forms.  No arithmetic here: the model says WHICH
    (pose value, point column) pair every output column is computed from, the result shape, or the exception kind.
-   It mirrors the code as it is; it is tied to the implementation on every run by evaluating [dispatch] with
+   It mirrors the code as it is (HEAD after fix 86fcbcb); it is tied to the implementation on every run by evaluating [dispatch] with
    vm_compute on the whole grid {SO2,SE2,SO3,SE3} x pose length 1..5 x {list,tuple,1-D,row,column,d x N, N=1..7}
    and comparing shape, column provenance and exception kind with the real call (props/C06.py: grid).
 
@@ -9,13 +9,14 @@
      1  len(left) == 1 and isvector(right, N)                                  -> kernel on the column form, shape (N,1)
      2  len(left)  > 1 and isvector(right, N)                                  -> one column per pose value, shape (N,len)
      3  len(left) == 1 and ndarray and right.shape[0] == N                     -> left.A @ right, shape (N,M)
-     4  ndarray and right.shape[0] == N and len(left) == right.shape[1]        -> zip(right, left.T): AttributeError (no attribute T)
+     4  ndarray and right.shape[0] == N and len(left) == right.shape[1]        -> column i = left[i] applied to right[:,i], shape (N,len)
+                                                                                  (since fix 86fcbcb; before, zip(right, left.T) raised AttributeError)
      5  else                                                                   -> ValueError('bad operands')          *)
 From Coq Require Import List Arith Bool Lia.
 Import ListNotations.
 
 Inductive form := FList (n : nat) | FTuple (n : nat) | FArr1 (n : nat) | FArr2 (r c : nat).
-Inductive err := ValueError | AttributeError.
+Inductive err := ValueError.
 Record res := { shape : list nat; cols : list (nat * nat) }.   (* cols: (index of the pose value, index of the point column) *)
 
 (* base.isvector(v, dim) for sequences of scalars and arrays *)
@@ -39,7 +40,7 @@ Definition dispatch (len dim : nat) (f : form) : err + res :=
     | None => inr {| shape := [dim]; cols := [(0, 0)] |}
     end
   else if is_ndarray f && (shape0 f =? dim) && (match shape1 f with Some c => len =? c | None => false end)
-    then inl AttributeError
+    then inr {| shape := [dim; len]; cols := map (fun i => (i, i)) (seq 0 len) |}
   else inl ValueError.
 
 (* value level: the kernel [act] (pose value -> point -> point) applied as the dispatch says *)
@@ -124,10 +125,11 @@ Proof.
   replace (1 <? len) with true by (symmetry; apply Nat.ltb_lt; lia). reflexivity.
 Qed.
 
-(* the code as it is: a multi-valued pose times a d x N array (N >= 2) never yields a value; the branch written for
-   N = len(left) (pairing pose i with column i) dies with AttributeError *)
+(* a multi-valued pose times a d x N array (N >= 2): pose i is applied to column i when N = len(pose); any other N is
+   rejected with ValueError *)
 Lemma dispatch_multi_array len dim N : 2 <= dim -> 2 <= len -> 2 <= N ->
-  dispatch len dim (FArr2 dim N) = inl (if len =? N then AttributeError else ValueError).
+  dispatch len dim (FArr2 dim N) =
+    if len =? N then inr {| shape := [dim; len]; cols := map (fun i => (i, i)) (seq 0 len) |} else inl ValueError.
 Proof.
   intros Hd Hl HN. unfold dispatch. simpl.
   replace (len =? 1) with false by (symmetry; apply Nat.eqb_neq; lia).
@@ -135,6 +137,23 @@ Proof.
   replace (N =? 1) with false by (symmetry; apply Nat.eqb_neq; lia).
   rewrite !andb_false_r. simpl. rewrite Nat.eqb_refl. simpl. destruct (len =? N); reflexivity.
 Qed.
+
+Section ApplyLemmas2.
+Context {P V : Type} (act : P -> V -> V) (dP : P) (dV : V).
+(* value level: for every length >= 2, output column i is pose i applied to point column i *)
+Lemma pose_mul_elementwise (poses : list P) (pts : list V) (dim : nat) : 2 <= dim -> 2 <= length poses ->
+  length pts = length poses ->
+  exists l, pose_mul act dP dV poses pts (FArr2 dim (length pts)) dim = inr l /\ length l = length poses /\
+            forall i, i < length poses -> nth i l dV = act (nth i poses dP) (nth i pts dV).
+Proof.
+  intros Hd HL HE. unfold pose_mul. rewrite HE.
+  rewrite (dispatch_multi_array (length poses) dim (length poses) Hd HL HL). rewrite Nat.eqb_refl. simpl cols.
+  eexists. split; [reflexivity|]. split.
+  - rewrite !map_length, seq_length. reflexivity.
+  - intros i Hi. rewrite map_map. simpl.
+    rewrite (nth_map_seq (fun x => act (nth x poses dP) (nth x pts dV)) dV (length poses) i Hi). reflexivity.
+Qed.
+End ApplyLemmas2.
 
 (* wrong sizes are rejected with ValueError *)
 Lemma dispatch_wrong_length len dim n : 1 <= len -> n <> dim ->
